@@ -602,9 +602,10 @@ def worker(args):
         bump("generated." + src)
         if rng.random() < 0.04 and doc["flows"][0]["nodes"]:   # malformed stream for the tie: an exit into a node that does not exist
             doc = json.loads(json.dumps(doc))
-            nd = rng.choice(doc["flows"][0]["nodes"])
-            rng.choice(nd["exits"])["destination_uuid"] = fresh_uuid(rng)
-            bump("malformed.dangling_destination")
+            cands = [nd for nd in doc["flows"][0]["nodes"] if nd["exits"]]
+            if cands:
+                rng.choice(rng.choice(cands)["exits"])["destination_uuid"] = fresh_uuid(rng)
+                bump("malformed.dangling_destination")
         with LogCapture():
             for t in tie_requests(doc):
                 tie_items.append((doc, t))
@@ -755,30 +756,37 @@ def known_streams(ck, workdir):
     kinds = ["fresh", "plain_n", "reverse_order"]
     # F-C17-a: WhatsApp template id survives --strip_uuids
     doc = f_c17_a_doc(True)
-    strict = check_doc(doc, kinds, random.Random(1), workdir, allow_template=False)
-    lenient = check_doc(doc, kinds, random.Random(1), workdir, allow_template=True)
-    counter = check_doc(f_c17_a_doc(False), kinds, random.Random(1), workdir, allow_template=False)
     ck.count("known_stream.F-C17-a")
-    if strict["fail"]:
-        trig = strict["fail"].get("leak", {})
-        if (strict["fail"]["what"] == "a stripped sheet contains a UUID" and trig.get("column") == "wa_template.uuid"
-                and trig.get("uuid_shaped") == TEMPLATE_UUID and not lenient["fail"] and lenient["template_hits"] > 0 and not counter["fail"]):
-            ck.known("F-C17-a", "the WhatsApp template id (templating.template.uuid) is copied into column wa_template.uuid of a --strip_uuids sheet",
-                     {"cell": trig, "otherwise": "byte-identical under renamings of all listed uuids"})
-        else:
-            ck.violation(strict["fail"]["what"], {"document": doc, "detail": strict["fail"], "stream": "F-C17-a (pattern did not match)"})
+    lenient = check_doc(doc, kinds, random.Random(1), workdir, allow_template=True)
+    if lenient["fail"]:      # fails beyond the known pattern (template id in column wa_template.uuid)
+        ck.violation(lenient["fail"]["what"], {"document": doc, "renaming_kinds": kinds, "subseed": 1, "detail": lenient["fail"], "stream": "F-C17-a document, template id cell exempted"})
+    else:
+        strict = check_doc(doc, kinds, random.Random(1), workdir, allow_template=False)
+        counter = check_doc(f_c17_a_doc(False), kinds, random.Random(1), workdir, allow_template=False)
+        if strict["fail"]:
+            trig = strict["fail"].get("leak", {})
+            if (strict["fail"]["what"] == "a stripped sheet contains a UUID" and trig.get("column") == "wa_template.uuid"
+                    and trig.get("uuid_shaped") == TEMPLATE_UUID and lenient["template_hits"] > 0 and not counter["fail"]):
+                ck.known("F-C17-a", "the WhatsApp template id (templating.template.uuid) is copied into column wa_template.uuid of a --strip_uuids sheet",
+                         {"cell": trig, "otherwise": "byte-identical under renamings of all listed uuids"})
+            else:
+                ck.violation(strict["fail"]["what"], {"document": doc, "renaming_kinds": kinds, "subseed": 1, "detail": strict["fail"], "stream": "F-C17-a (pattern did not match)"})
     # F-C17-b: has_group test in a router that is not a group split: the group's uuid is exported as the condition value
     doc, gu = f_c17_b_doc()
     ck.count("known_stream.F-C17-b")
     strict = check_doc(doc, kinds, random.Random(2), workdir)
-    counter_doc, _ = f_c17_b_doc(operand="@contact.groups")
-    counter = check_doc(counter_doc, kinds, random.Random(2), workdir)
     if strict["fail"]:
+        counter_doc, _ = f_c17_b_doc(operand="@contact.groups")
+        counter = check_doc(counter_doc, kinds, random.Random(2), workdir)
         leak = strict["fail"].get("leak", {})
-        ok_pattern = (strict["fail"]["what"] == "a stripped sheet contains a UUID" and re.fullmatch(r"edges\.\d+\.condition", leak.get("column", ""))
-                      and leak.get("uuid_shaped") == gu and not counter["fail"])
-        if ok_pattern:
-            # and apart from that uuid the sheets are renaming-invariant
+        beyond = None
+        if counter["fail"]:
+            beyond = {"what": counter["fail"]["what"], "document": counter_doc, "detail": counter["fail"]}
+        elif not (strict["fail"]["what"] == "a stripped sheet contains a UUID" and re.fullmatch(r"edges\.\d+\.condition", leak.get("column", ""))
+                  and leak.get("uuid_shaped") == gu):
+            beyond = {"what": strict["fail"]["what"], "document": doc, "detail": strict["fail"]}
+        else:
+            # apart from that uuid the sheets must be renaming-invariant and uuid-free
             ids = collect_uuids(doc)
             for numbered in (False, True):
                 base = export_files(doc, numbered, workdir)
@@ -786,13 +794,22 @@ def known_streams(ck, workdir):
                 got = export_files(apply_renaming(doc, m), numbered, workdir)
                 back = {fn: d.replace(m[gu].encode(), gu.encode()) for fn, d in got.items()}
                 leaks, _ = scan_cells(base, ids)
-                if back != base or any(l.get("uuid_shaped") != gu for l in leaks):
-                    ok_pattern = False
-        if ok_pattern:
+                other = [l for l in leaks if l.get("uuid_shaped") != gu]
+                if other:
+                    beyond = {"what": "a stripped sheet contains a UUID", "document": doc, "detail": {"leak": other[0], "mode": "numbered" if numbered else "named"}}
+                elif back != base:
+                    fn = next(iter(base))
+                    beyond = {"what": "stripped sheets differ after a bijective renaming of the uuids", "document": doc,
+                              "detail": {"mode": "numbered" if numbered else "named", "mapping": m, "note": "beyond the group uuid of F-C17-b (substituted back before comparing)",
+                                         "original": base[fn].decode("utf-8", "replace")[:2000], "renamed": got[fn].decode("utf-8", "replace")[:2000]}}
+                ids_p = id_checks(base, numbered)
+                if ids_p and not beyond:
+                    beyond = {"what": ids_p[0]["what"], "document": doc, "detail": ids_p[0]}
+        if beyond is None:
             ck.known("F-C17-b", "a has_group test in a router whose operand is not @contact.groups exports the group's uuid as the condition value",
                      {"cell": leak})
         else:
-            ck.violation(strict["fail"]["what"], {"document": doc, "detail": strict["fail"], "stream": "F-C17-b (pattern did not match)"})
+            ck.violation(beyond["what"], {"document": beyond["document"], "renaming_kinds": kinds, "subseed": 2, "detail": beyond["detail"], "stream": "F-C17-b document (failure beyond the known pattern)"})
 
 
 # ------------------------------------------------------------------ run
@@ -816,7 +833,14 @@ def run(ck: core.Check):
         "uuid.uuid4() used for go_to temp ids is fresh (model: counter)",
         "WhatsApp template ids are not part of the statement's renaming list: held fixed",
     ]
-    ck.partial_gap = []
+    ck.partial_gap = [
+        "row content (action / router fields) and edge conditions are opaque uuid-free strings in the model: that get_row_model_fields / "
+        "get_exit_edge_pairs / short_name put no uuid of the renaming list into them is checked on every case by the cell scan, not proved "
+        "(known exceptions: F-C17-a template id, F-C17-b has_group outside a group split)",
+        "the model's recursion fuel (|nodes|+1) and counter fuel (|used names|+1) are never exhausted: not proved, checked by the tie on every case "
+        "(the theorems hold for the error results as well)",
+        "unparse_row / topological_sort / tablib export are uninterpreted functions of the uuid-free rows (sheet_renaming_invariant is parametric in them)",
+    ]
     workdir = tempfile.mkdtemp(prefix="c17_")
     try:
         with LogCapture():
@@ -853,7 +877,7 @@ def run(ck: core.Check):
                 if r["fail"]:
                     report_bad(ck, {"doc": d, "kinds": RENAMING_KINDS, "subseed": 1, "fail": r["fail"], "src": "tie disagreement"}, workdir)
             if quick and not ck.violations:
-                jobs = [(ck.rng.randrange(1 << 60), 100, 16, len(RENAMING_KINDS), False, workdir) for _ in range(par.NPROC)]
+                jobs = [(ck.rng.randrange(1 << 60), 40, 14, len(RENAMING_KINDS), False, workdir) for _ in range(par.NPROC)]
                 for r in par.pmap(search_worker, jobs):
                     ck.count("search.cases", r["n"])
                     for b in r["bad"][:2]:
@@ -862,6 +886,8 @@ def run(ck: core.Check):
                 "flows_with_multi_action_node": 10, "flows_with_ui": 10, "cli_exports": 4, "tie.compared": 200, "tie.multi_edge_rows": 20,
                 "tie.named_ids_with_counter": 20, "tie.real_raises.ValueError": 1, "csv_vs_to_rows": 20}
         for k, v in need.items():
+            if ck.violations:
+                break       # failing cases stop early (no CLI / tie sample for them): a violation is never masked by the self-check
             if ck.strata.get(k, 0) < v:
                 raise core.Infra(f"generator stratum {k} under-represented: {ck.strata.get(k, 0)} < {v}")
     finally:
